@@ -13,9 +13,10 @@ def builtin_from_name(inference_state, string):
         filter_ = next(builtins.get_filters())
     else:
         filter_ = next(typing_builtins_module.get_filters())
-    name, = filter_.get(string)
-    # Most of the time there is only symbol, but sometimes there are different
-    # sys.version_infos, where there are multiple ones, just use the first one.
+    # Most of the time there is only one name, but while flow analysis is
+    # disabled (e.g. when searching for references) there can be one per
+    # sys.version_info branch of the stub, just use the first one.
+    name = min(filter_.get(string), key=lambda n: n.start_pos or (0, 0))
     return next(iter(name.infer()))
 
 
